@@ -1761,7 +1761,7 @@ class FuncFindLast(ValueFunc):
             item = args.get("part")
             lst = obj.value
             start = args.getInt("start", len(lst) - 1).value
-            for idx in range(start, -1, -1):
+            for idx in range(min(start, len(lst) - 1), -1, -1):
                 elem = lst[idx]
                 if key:
                     elem = key.execute(
